@@ -1676,11 +1676,103 @@ class Translator:
             if simple is not None:
                 text, env2 = simple
                 return (text + "\n" if text else "") + self.block(rest, env2, frame)
+            if rest and self.spec.get("join_raises") and self.state is not None:
+                rj = self.try_rjoin(c, st.body, st.orelse, env, st, frame)
+                if rj is not None:
+                    head, env2 = rj
+                    return head + ind(self.block(rest, env2, frame)) + ")"
             k = ContFrame(self, frame, rest)
             a = self.block(st.body, env, k)
             b = self.block(st.orelse, env, k)
             return f"if {c.term} then (\n{ind(a)})\nelse (\n{ind(b)})"
         return self.with_hoists(hs, env, frame, inner)
+
+    def try_rjoin(self, c, body, orelse, env, node, frame):
+        """spec `join_raises`: branches that assign and may RAISE (no return / break / continue), followed by more statements:
+        the `if` is a `Res` value — `.ok <assigned locals> <state>` or `.raised e <state at the raise>` — so that what follows
+        is rendered once. None when that form does not apply."""
+        mod = self.assigned(body, [])
+        self.assigned(orelse, mod)
+        if any(isinstance(m, str) and m not in env and m in self.reserved for m in mod):
+            return None
+        if any(isinstance(m, tuple) or m == "__acts" for m in mod):
+            return None
+        saved = (self.tmp, self.raises)
+        jf = RJoinFrame(self, mod)
+        try:
+            a = self.block(body, env, jf)
+            b = self.block(orelse, env, jf)
+        except _NotSimple:
+            self.tmp, self.raises = saved
+            return None
+        loc = [m for m in mod if m != "__st"]
+        if any(m not in e for e in jf.ends for m in loc):
+            self.tmp, self.raises = saved
+            return None
+        self.raises = True
+        typs, nns = [], []
+        for m in loc:
+            t, nn = None, True
+            for e in jf.ends:
+                t = e[m].typ if t is None else self.join_type(t, e[m].typ, node)
+                nn = nn and e[m].nn
+            typs.append(t)
+            nns.append(nn)
+        parts = [a, b]
+        for j, e in enumerate(jf.ends):
+            tup = "(" + ", ".join(self.coerce(e[m], t, node) for m, t in zip(loc, typs)) + ")"
+            parts = [p.replace(f"\0J{id(jf)}_{j}\0", f"(.ok {tup} {e['__st'].term})") for p in parts]
+        sty = " × ".join(ty_arg(t) if " " in ty(t) else ty(t) for t in typs) if loc else "Unit"
+        stt = env["__st"].typ
+        j = self.fresh("py_j")
+        env_r = dict(env)
+        env_r["__st"] = V("st'", stt)
+        for m in loc:                  # at a raise inside a branch the locals it assigns are not known out here
+            env_r.pop(m, None)
+            env_r[("maybe", m)] = True
+        env2 = dict(env)
+        env2["__st"] = V("st'", stt)
+        lines = []
+        for idx, (m, t, nn) in enumerate(zip(loc, typs, nns)):
+            proj = j if len(loc) == 1 else j + ".2" * idx + (".1" if idx < len(loc) - 1 else "")
+            lines.append(f"let {lname(m)} : {ty(t)} := {proj}")
+            env2[m] = V(lname(m), t, nn)
+            env2.pop(("maybe", m), None)
+        rty = f"PyRt.Res {ty_arg(stt)} {ty_arg(sty) if ' ' in sty else sty}"
+        expr = f"if {c.term} then (\n{ind(parts[0])})\nelse (\n{ind(parts[1])})"
+        call = self.split_join(node, env, expr, rty)
+        head = (f"PyRt.tryR ({call})"
+                f" (fun py_e st' => {frame.raise_('py_e', env_r)}) (fun {j if loc else '_'} st' =>\n"
+                + "".join(ind(l) + "\n" for l in lines))
+        return head, env2
+
+    def split_join(self, node, env, expr, rty):
+        """the `Res`-valued `if` of `try_rjoin` as a definition of its own (`<name>.join<k>`), the names it uses as parameters"""
+        import re
+        defined = set(re.findall(r"fun (py_t_\d+) =>", expr)) | set(re.findall(r"fun (py_v_\d+) ", expr))
+        used = set(re.findall(r"\bpy_[tv]_\d+\b", expr))
+        if used - defined:
+            return f"(({expr}) : {rty})"
+        self.njoins = getattr(self, "njoins", 0) + 1
+        nm = f"{self.name}.join{self.njoins}"
+        params = []
+        for n, t in self.spec.get("externals", []):
+            if re.search(r"(?<![\w.'«])" + re.escape(n) + r"(?![\w'»])", expr):
+                params.append((n, RawType(t)))
+        seen = {n for n, _ in params}
+        for k_, v in env.items():
+            if not isinstance(v, V) or not re.fullmatch(r"«?[A-Za-z_][\w]*»?'?", v.term):
+                continue
+            if v.term in seen:
+                continue
+            if re.search(r"(?<![\w.'«])" + re.escape(v.term) + r"(?![\w'»])", expr):
+                params.append((v.term, v.typ))
+                seen.add(v.term)
+        sig = " ".join(f"({n} : {ty(t)})" for n, t in params)
+        tp = "".join(f"{{{t} : Type}} " for t in self.spec.get("tparams", ()))
+        self.aux_defs = getattr(self, "aux_defs", [])
+        self.aux_defs.append(f"def {nm} {tp}{sig} : {rty} :=\n{ind(expr)}\n")
+        return " ".join([nm] + [n for n, _ in params])
 
     def assigned(self, stmts, acc):
         for s in stmts:
@@ -2115,6 +2207,12 @@ class JoinFrame(Frame):
             lines.append(f"let {n} : {ty(t)} := {proj}")
             env2[m] = V(n, t, nn)
         return "\n".join(lines), env2
+
+
+class RJoinFrame(JoinFrame):
+    """branches that assign and may raise, as one `Res` value (`Translator.try_rjoin`)"""
+    def raise_(self, e, env):
+        return f"(.raised {e} {env['__st'].term})"
 
 
 class LoopFrame(Frame):
